@@ -194,6 +194,8 @@ func mkSelDoc() *selDoc {
 		"m":    d.m,
 		"k.k":  Map{"c": d.y},
 		"num":  "12.5",
+		"ab":   "without-space",
+		"a b":  "with-space",
 		"o":    Map{"p": Map{"q": d.x, "r": Map{"z": d.s}}, "w": d.y},
 		"mm":   spare([]any{spare([]any{d.x, d.y, d.x}), spare([]any{d.x, d.x, d.y}), spare([]any{d.y, d.y, d.x})}),
 	}
@@ -304,6 +306,16 @@ var selCases = []selCase{
 	{"o::p::q", func(d *selDoc) (any, bool) { return d.x, false }},
 	{"p", func(d *selDoc) (any, bool) { return nil, false }},
 	{"q", func(d *selDoc) (any, bool) { return nil, false }},
+	// selector texts that differ only in spaces
+	{"'ab'", func(d *selDoc) (any, bool) { return "without-space", false }},
+	{"'a b'", func(d *selDoc) (any, bool) { return "with-space", false }},
+	{"ab", func(d *selDoc) (any, bool) { return "without-space", false }},
+	{"arr[1 ]", func(d *selDoc) (any, bool) {
+		if len(d.arr) < 2 {
+			return nil, true
+		}
+		return d.arr[1], false
+	}},
 	// a top-level function and a keep=> marker in one segment
 	{"mix=>m[keep=>each:each]", func(d *selDoc) (any, bool) { return []any{d.x, d.y, d.x}, false }},
 	{"distinct=>m[keep=>each:0]", func(d *selDoc) (any, bool) {
